@@ -13,7 +13,10 @@ type Iterator struct {
 }
 
 func (db *DB) NewIterator(opts IteratorOptions) *Iterator {
+	// 快照须对应某一时刻: 各分片依次加锁创建快照, 期间持有读锁以与写入互斥
+	db.mu.RLock()
 	indexIter := db.index.Iterator(opts.Reverse)
+	db.mu.RUnlock()
 	return &Iterator{
 		db:        db,
 		indexIter: indexIter,
